@@ -602,4 +602,17 @@ def State.assign (s : State) (c : Con) : State × Res :=
     | .unsupported => (s, .unsupported)
     | _ => s.assignBase c
 
+/-! ## constr_prop_down.h: bounds handed down from a result to its arguments (compared with the real code only through the
+end-to-end stage of checks/c06.py, not by the op-script correspondence) -/
+
+/-- the bounds `constr_prop_down.h` hands to each *argument* of a logical constraint whose result is known to lie in
+`[lb, ub]` (`PropagateResult(And/Or/Not/Implication/IfThen-condition)`) -/
+def propDownArgs : Con → Rat → Rat → List (Nat × Rat × Rat)
+  | .and as, lb, _ => as.map fun a => (a, lb, 1)
+  | .or as, _, ub => as.map fun a => (a, 0, ub)
+  | .not a, lb, ub => [(a, 1 - ub, 1 - lb)]
+  | .impl c t f, _, _ => [(c, 0, 1), (t, 0, 1), (f, 0, 1)]
+  | .ifthen c _ _, _, _ => [(c, 0, 1)]
+  | _, _, _ => []
+
 end MpVerif.C06
